@@ -106,11 +106,11 @@ def run(vc):
                         sq = -1 if et in ("load", "storage") else 1
                         blocks.append(("q", SV(to_z(g, I) + ngen), ("cq2_eur_per_mvar2", "cq1_eur_per_mvar", "cq0_eur"), sq))
                     for tag, grow, (k2, k1, k0), sg in blocks:
-                        ncost = gencost.row_of(r, grow, NCOST)
+                        ncost = gencost.row_of(r, grow, NCOST, p.it)
                         n = 3 if quadratic else 2
                         p.prove(f"ncost[{et},{tag},{'quad' if quadratic else 'lin'}]", SV(to_z(ncost, R) == n),
                                 note="NCOST of the addressed gencost row")
-                        coefs = [gencost.row_of(r, grow, COST + k) for k in range(n)]
+                        coefs = [gencost.row_of(r, grow, COST + k, p.it) for k in range(n)]
                         x = arith("*", sg, PG)
                         c2 = cost.cols[k2] if quadratic else 0
                         user = arith("+", arith("+", arith("*", c2, arith("*", x, x)), arith("*", cost.cols[k1], x)), cost.cols[k0])
@@ -139,3 +139,204 @@ def _expected_gen(net, et, cost):
     a = lk.raw(name)
     from pyvc.arrays import subst
     return subst(a.e, a.space.i, to_z(cost.cols["element"], I))
+
+
+# ------------------------------------------------------------------------------------------------
+# _map_costs_to_gen / _get_gen_index, piecewise-linear costs
+# ------------------------------------------------------------------------------------------------
+def _optional_lookup_summary(it):
+    """assumed contract of _get_gen_index (verified separately below by direct interpretation):
+    result = lookup_et[element] if the element is an OPF variable, else None"""
+    F_found = z3.Function("is_opf_variable", I, B)
+    F_gen = z3.Function("gen_of_element", I, I)
+
+    def get_gen_index(it, net, et, element):
+        e = to_z(element, I)
+        return SV(z3.If(F_found(e), PV.i(F_gen(e)), PV.none))
+    get_gen_index._pure = True
+    it.summaries[f"{MO}:_get_gen_index"] = get_gen_index
+    return F_found, F_gen
+
+
+def _pwl_eval(xs, fs, PG):
+    """PYPOWER evaluation of a piecewise linear cost with break points (xs[k], fs[k]) (totcost): the first segment
+    whose right end exceeds PG, else the last segment; linear extrapolation beyond the ends"""
+    n = len(xs)
+    def seg(k):
+        m = arith("/", arith("-", fs[k + 1], fs[k]), arith("-", xs[k + 1], xs[k]))
+        return arith("+", arith("*", m, arith("-", PG, xs[k])), fs[k])
+    out = seg(n - 2)
+    for k in reversed(range(n - 2)):
+        from pyvc.values import ite, compare
+        out = ite(compare("<", PG, xs[k + 1]), seg(k), out)
+    return out
+
+
+def run_pwl(vc):
+    from pyvc.vc import consts
+    from pyvc.values import ite, compare, logic
+    ic = consts('pandapower.pypower.idx_cost')
+    NCOST, COST = ic.NCOST, ic.COST
+
+    # (1) _map_costs_to_gen: gens / filtered cost table / signs are aligned and as specified
+    for et in ETS:
+        def h_map(p, et=et):
+            F_found, F_gen = _optional_lookup_summary(p.it)
+            net, ppci, cost, gencost = _net_for(et)
+            out = p.call(f"{MO}:_map_costs_to_gen", net, cost)
+            if out.raised:
+                raise EngineError(f"_map_costs_to_gen raised {out.exc!r}")
+            gens, cost2, signs = out.value
+            found = F_found(to_z(cost.cols["element"], I))
+            # for an arbitrary row: it is kept in each of the three results iff its element is an OPF variable
+            for nm, a in (("gens", gens), ("signs", signs)):
+                m = z3.BoolVal(True) if a.mask is True else a.mask
+                p.prove(f"map:{nm}-rows[{et}]", m == found,
+                        note=f"{nm} has exactly the rows of cost entries whose element is an OPF variable")
+            m2 = z3.BoolVal(True) if cost2.mask is True else cost2.mask
+            p.prove(f"map:cost-rows[{et}]", m2 == found, note="returned cost table has exactly those rows")
+            p.assume(found)      # from here on: the generic row is a row that survives the filter
+            p.prove(f"map:gen-index[{et}]", to_z(gens.e, I) == F_gen(to_z(cost.cols["element"], I)),
+                    note="gens[r] is the ppc gen of the row's own element")
+            p.prove(f"map:sign[{et}]", to_z(signs.e, R) == SIGMA[et], note="sign convention per element type")
+            p.cover(f"map-reach[{et}]", True)
+        vc.explore(f"_map_costs_to_gen[{et}]", h_map, max_paths=8)
+
+    # (2) _get_gen_index against the contract assumed in (1)
+    for et in ETS:
+        def h_idx(p, et=et):
+            net, ppci, cost, gencost = _net_for(et)
+            element = z3.Int("element")
+            out = p.call(f"{MO}:_get_gen_index", net, et, SV(element))
+            if out.raised:
+                raise EngineError(f"_get_gen_index raised {out.exc!r}")
+            cost.cols["element"] = SV(element)
+            p.prove(f"gen-index[{et}]", to_z(out.value, I) == to_z(_expected_gen(net, et, cost), I),
+                    note="lookup of the element's own label in the lookup table of its own element type")
+        vc.explore(f"_get_gen_index[{et}]", h_idx, max_paths=8)
+
+    # (3) piecewise linear costs (bounded: 1..3 areas per cost function; all values symbolic)
+    for et in ETS:
+        for n_areas in (1, 2, 3):
+            for mode in ("p", "q"):
+                if mode == "q" and et == "dcline":
+                    continue   # a dcline has two reactive powers: a q cost has no documented meaning (not decided)
+                def h_pwl(p, et=et, n_areas=n_areas, mode=mode):
+                    p.it.generic_loops = True
+                    F_found, F_gen = _optional_lookup_summary(p.it)
+                    p.fn(f"{MO}:costs_from_areas"); p.fn(f"{MO}:_map_costs_to_gen")
+                    net, ppci, _, gencost = _net_for(et)
+                    pwl = Table("pwl_cost")
+                    pwl.add_col("element", I)
+                    pwl.cols["et"] = et
+                    pwl.cols["power_type"] = mode
+                    bounds = [real(f"x{k}") for k in range(n_areas + 1)]
+                    slopes = [real(f"slope{k}") for k in range(n_areas)]
+                    pwl.cols["points"] = [(bounds[k], bounds[k + 1], slopes[k]) for k in range(n_areas)]
+                    net.fields.set("pwl_cost", pwl)
+                    for k in range(n_areas):
+                        p.assume(compare("<", bounds[k], bounds[k + 1]))
+                    out = p.call(f"{MO}:_fill_gencost_pwl", ppci, net)
+                    if out.raised:
+                        raise EngineError(f"_fill_gencost_pwl raised {out.exc!r}")
+                    p.assume(F_found(to_z(pwl.cols["element"], I)))   # generic row: a cost entry of an OPF variable
+                    g = F_gen(to_z(pwl.cols["element"], I))
+                    if mode == "q":
+                        g = g + z3.Int("rows[ppcgen]")
+                    n_pts = n_areas + 1
+                    xs = [gencost.row_of(None, SV(g), COST + 2 * k, p.it) for k in range(n_pts)]
+                    fs = [gencost.row_of(None, SV(g), COST + 2 * k + 1, p.it) for k in range(n_pts)]
+                    p.prove(f"pwl:ncost[{et},{mode},{n_areas}]", to_z(gencost.row_of(None, SV(g), NCOST, p.it), R) == n_pts,
+                            kind="bounded", note="NCOST = number of break points")
+                    sig = SIGMA[et] if mode == "p" else (-1 if et in ("load", "storage") else 1)
+                    PG = real("PG")
+                    own = arith("*", sig, PG)
+                    # user's cumulative cost on area m: C(lower_0) = lower_0*slope_0
+                    cum = arith("*", bounds[0], slopes[0])
+                    for m in range(n_areas):
+                        user = arith("+", cum, arith("*", slopes[m], arith("-", own, bounds[m])))
+                        inside = logic("&", compare("<=", bounds[m], own), compare("<=", own, bounds[m + 1]))
+                        p.prove(f"pwl:cost[{et},{mode},areas={n_areas},area={m}]",
+                                z3.Implies(to_z(inside), to_z(_pwl_eval(xs, fs, PG), R) == to_z(user, R)), kind="bounded",
+                                note="pwl gencost row evaluates to the user's cumulative cost at the element's own power inside each area",
+                                watch={"PG": PG.z, **{f"x{k}": bounds[k].z for k in range(n_pts)}, **{f"slope{k}": slopes[k].z for k in range(n_areas)}},
+                                meta=dict(et=et, n_areas=n_areas, area=m, mode=mode, pwl=True))
+                        cum = arith("+", cum, arith("*", slopes[m], arith("-", bounds[m + 1], bounds[m])))
+                vc.explore(f"_fill_gencost_pwl[{et},{mode},areas={n_areas}]", h_pwl, max_paths=8)
+    vc.bounded.append({"function": f"{MO}:costs_from_areas / _fill_gencost_pwl", "bound": "number of areas of one cost function in {1,2,3}; "
+                       "break points and slopes symbolic", "why": "loop over the areas of one cost entry: an inductive invariant over a Python list "
+                       "is outside the list theory of the engine", "counted_as_proved": False})
+
+    # (4) linear polynomial costs added to a pwl problem
+    for et in ETS:
+        def h_lin(p, et=et):
+            F_found, F_gen = _optional_lookup_summary(p.it)
+            net, ppci, cost, gencost = _net_for(et)
+            out = p.call(f"{MO}:_add_linear_costs_as_pwl_cost", ppci, net)
+            if out.raised:
+                raise EngineError(f"_add_linear_costs_as_pwl_cost raised {out.exc!r}")
+            p.assume(F_found(to_z(cost.cols["element"], I)))
+            ig = consts('pandapower.pypower.idx_gen')
+            g = SV(F_gen(to_z(cost.cols["element"], I)))
+            gen = ppci.raw("gen")
+            pmin, pmax = gen.row_of(None, g, ig.PMIN, p.it), gen.row_of(None, g, ig.PMAX, p.it)
+            xs = [gencost.row_of(None, g, COST, p.it), gencost.row_of(None, g, COST + 2, p.it)]
+            fs = [gencost.row_of(None, g, COST + 1, p.it), gencost.row_of(None, g, COST + 3, p.it)]
+            PG = real("PG")
+            p.assume(compare("<", pmin, pmax))
+            user = arith("*", cost.cols["cp1_eur_per_mw"], arith("*", SIGMA[et], PG))
+            p.prove(f"linear-as-pwl[{et}]", to_z(_pwl_eval(xs, fs, PG), R) == to_z(user, R),
+                    note="two-point pwl row equals cp1 * (element's own power)")
+            p.prove(f"linear-as-pwl:ncost[{et}]", to_z(gencost.row_of(None, g, NCOST, p.it), R) == 2)
+        vc.explore(f"_add_linear_costs_as_pwl_cost[{et}]", h_lin, max_paths=8)
+
+    # (5) res_cost is the objective value of the solved ppc
+    def h_cost(p):
+        obj = real("ppc_obj")
+        net = netmodel.Net({}, strict=True)
+        out = p.call("pandapower.results:_get_costs", net, PDict({"obj": obj}))
+        p.prove("res_cost", to_z(net.fields.raw("res_cost"), R) == obj.z, note="net.res_cost == ppc['obj']")
+    vc.explore("_get_costs", h_cost)
+
+
+_run_poly = run
+
+
+def run(vc):
+    _run_poly(vc)
+    run_pwl(vc)
+
+
+def classify(ob, model):
+    m = ob.meta
+    if m.get("pwl"):
+        return f"pwl-cost[{m.get('et')}]"
+    if "et" in m:
+        return f"poly-cost[{m.get('et')}]"
+    return ob.meta.get("label", ob.id).split("[")[0]
+
+
+def replay(ob, model, finding=None):
+    m = ob.meta
+    et = m.get("et")
+    lab = m.get("label", "")
+    if lab.startswith("map:") or lab.startswith("side:aligned"):
+        return {"script": f"# replay of {ob.id}\n# a cost entry of an element that is not an OPF variable precedes other entries:\n"
+                          "# every remaining entry must keep its own element and sign\n"
+                          "from replaylib.opf_cost import main_dropped_row\nmain_dropped_row()\n",
+                "description": "cost table with a dropped entry: res_cost vs the user's costs at the result"}
+    if et is None:
+        return None
+    if m.get("pwl"):
+        cands = [[[0., 10., -3.], [10., 40., -1.]], [[0., 10., 1.], [10., 40., 3.]], [[0., 40., 2.]]]
+        kind = "pwl"
+    else:
+        cands = [[0.05, -3., 7.], [0.02, 2., 5.], [0., 1.5, 4.]] if m.get("quadratic", True) else [[0., -3., 7.], [0., 2., 5.]]
+        kind = "poly"
+    script = f"""# replay of {ob.id}
+# oracle (property C17): after a converged OPF, net.res_cost equals the user's cost function of element type {et!r}
+# evaluated at the element's own result power.
+from replaylib.opf_cost import main
+main({et!r}, {kind!r}, {cands!r})
+"""
+    return {"script": script, "description": f"OPF with a {kind} cost on a controllable {et}: res_cost vs. user's cost at the result"}
